@@ -15,6 +15,10 @@ def run(ctx):
     rc.reg_check(ctx, STACKS_Q if quick else STACKS_T, STRICT, n_tlc=8 if quick else 200, n_rand=24 if quick else 800,
                  cover='OciRegistryCover_all.cfg', cover_sample=200 if quick else 8000,
                  profiles=('range', 'all', 'upload'), tlc_cfg='OciRegistryGenNoUp.cfg', honest=True, label='all stacks vs OciRegistry (content)')
+    # third sentence of the property: corrupted content read through the client never ends in a clean EOF
+    # (client fault family: model check of CorruptNeverCleanEOF, its response scripts through the real client, validation)
+    import c18
+    c18.corrupt_clause(ctx, quick)
     ctx.assumptions += ['independent sha256 in the harness maps bytes read to catalogue contents', 'ranges on block contents fall on block boundaries']
     return vlib.finish(ctx, rule='contents of length 0,1,2,3 (NUL, UTF-8 fragments), a 16 KiB block content and a 140 KiB manifest are pushed by every path '
                        '(monolithic, chunked, mount, manifest by tag/digest, wrong digest/size declared) and read back completely and by ranges at every boundary through '
@@ -23,4 +27,7 @@ def run(ctx):
 
 
 def replay(ctx, path):
+    import c18
+    if c18.is_faults_trace(path):
+        return c18.replay(ctx, path)
     return rc.replay_reg(ctx, path, strict=STRICT)
